@@ -42,3 +42,13 @@ Lemma apropos_subtree_pinned_refuted :
   path_search d23_tree d23_addr [] Unmodified =
     SOk [{| e_name := Some [101]; e_data := None; e_len := 0 |}].
 Proof. repeat split; vm_compute; reflexivity. Qed.
+
+(* observation (outside the quantifier: port names are non-empty): a port with
+   an EMPTY name makes the unique-prefix pass read args[prev].s[strlen_prev-1]
+   one byte before the string; the model reports the read (SOob), the real code
+   trips ASan (global-buffer-overflow, 1 byte left of the literal "") *)
+Lemma empty_name_reads_before :
+  path_search [Port [] None None; Port [98] None None] [] [] SortedUniquePrefix = SOob /\
+  path_search [Port [] None None; Port [98] None None] [] [] Sorted =
+    SOk [{| e_name := Some []; e_data := None; e_len := 0 |}; {| e_name := Some [98]; e_data := None; e_len := 0 |}].
+Proof. split; vm_compute; reflexivity. Qed.
